@@ -34,7 +34,7 @@ META = {
                     'by a one-letter marker token; no catcode op inside an argument group; \\gdef writes the bottom frame and '
                     'may be shadowed by a live local definition (lookup yields the innermost live definition)',
                     'no fault space exists for this property (sequential refinement only)'],
-    'probe_names': ['dfs_exhaustive', 'fresh_name_global_in_nesting', 'catalogue_scope', 'catalogue_dimen_spelling', 'catalogue_raise', 'declaration_frame', 'change_after_declaration_restored', 'char_let_shadowed', 'local_def_restored', 'global_def_survives', 'let_restored', 'catcode_restored', 'if_survives', 'counter_survives',
+    'probe_names': ['dfs_exhaustive', 'user_environment', 'fresh_name_global_in_nesting', 'catalogue_scope', 'catalogue_dimen_spelling', 'catalogue_raise', 'declaration_frame', 'change_after_declaration_restored', 'char_let_shadowed', 'local_def_restored', 'global_def_survives', 'let_restored', 'catcode_restored', 'if_survives', 'counter_survives',
                     'nested_depth_ge3', 'env_inside_group', 'group_inside_env', 'math_group', 'cell_scope', 'argument_group',
                     'gdef_shadowed', 'catcode_cow_two_frames'],
     'shrink_budget': 400,
@@ -47,7 +47,7 @@ ALLNAMES = NAMES + LNAMES
 FRESH = ['qfa', 'qfb']       # names that are NOT defined at the start: existence tests (\ifdefined, `in`, keys()) follow the stack too
 API_KINDS = ['group', 'env']
 TEX_KINDS = ['brace', 'begingroup', 'center', 'quote', 'math', 'cell', 'textbf', 'mbox', 'parenmath', 'displaymath',
-             'equation', 'itemize', 'minipage', 'footnote', 'dollars', 'figurestar', 'multicolumn']
+             'equation', 'itemize', 'minipage', 'footnote', 'dollars', 'figurestar', 'multicolumn', 'qenva', 'qenvb', 'qenvc']
 MATH_KINDS = ('math', 'parenmath', 'displaymath', 'equation', 'dollars')
 ARG_KINDS = ('textbf', 'mbox', 'footnote', 'multicolumn', 'mboxm')
 
@@ -163,7 +163,9 @@ class Model(object):
         if len(self.frames) >= 4:
             self.info['nested_depth_ge3'] = 1
         kinds = [f['kind'] for f in self.frames[1:]]
-        envs = ('center', 'quote', 'env', 'itemize', 'minipage', 'equation')
+        envs = ('center', 'quote', 'env', 'itemize', 'minipage', 'equation', 'qenva', 'qenvb', 'qenvc')
+        if kind in ('qenva', 'qenvb', 'qenvc'):
+            self.info['user_environment'] = 1
         for a, b in zip(kinds, kinds[1:]):
             if a in ('brace', 'begingroup', 'group') and b in envs:
                 self.info['env_inside_group'] = 1
@@ -369,13 +371,19 @@ OPEN_TEX = {'brace': '{', 'begingroup': '\\begingroup ', 'center': '\\begin{cent
             'cell': '\\begin{tabular}{ll}', 'textbf': '\\textbf{', 'mbox': '\\mbox{', 'parenmath': '\\( ', 'displaymath': '\\[ ',
             'equation': '\\begin{equation}', 'itemize': '\\begin{itemize}\\item ', 'minipage': '\\begin{minipage}{3cm}',
             'footnote': '\\footnote{', 'dollars': '$$ ', 'figurestar': '\\begin{figure*}',
-            'multicolumn': '\\begin{tabular}{ll}\\multicolumn{2}{c}{', 'mboxm': '\\mbox{'}
+            'multicolumn': '\\begin{tabular}{ll}\\multicolumn{2}{c}{', 'mboxm': '\\mbox{',
+            'qenva': '\\begin{qenva}', 'qenvb': '\\begin{qenvb}', 'qenvc': '\\begin{qenvc}{}'}
 CLOSE_TEX = {'brace': '}', 'begingroup': '\\endgroup ', 'center': '\\end{center}', 'quote': '\\end{quote}', 'math': '$',
              'cell': '\\end{tabular}', 'textbf': '}', 'mbox': '}', 'parenmath': '\\)', 'displaymath': '\\]',
              'equation': '\\end{equation}', 'itemize': '\\end{itemize}', 'minipage': '\\end{minipage}', 'footnote': '}',
-             'dollars': '$$', 'figurestar': '\\end{figure*}', 'multicolumn': '}\\end{tabular}', 'mboxm': '}'}
+             'dollars': '$$', 'figurestar': '\\end{figure*}', 'multicolumn': '}\\end{tabular}', 'mboxm': '}',
+             'qenva': '\\end{qenva}', 'qenvb': '\\end{qenvb}', 'qenvc': '\\end{qenvc}'}
 PREAMBLE = ('\\documentclass{article}\\newcounter{cx}\\newif\\ifsw\\makeatletter\\def\\pr@be{L}\\makeatother\\def\\pr{O}'
-            + ''.join('\\def\\%s{%s0}' % (n, n) for n in ALLNAMES) + '\\begin{document}')
+            + ''.join('\\def\\%s{%s0}' % (n, n) for n in ALLNAMES)
+            # user-defined environments: plain, with its end part redefined by \def, with an argument
+            + '\\newenvironment{qenva}{\\relax}{\\relax}\\newenvironment{qenvb}{\\relax}{\\relax}\\def\\endqenvb{\\relax}'
+            + '\\newenvironment{qenvc}[1]{\\relax}{\\relax #1}'
+            + '\\begin{document}')
 
 
 def compile_tex(ops, global_prefix=False):
